@@ -256,12 +256,29 @@ class MemTransport(asyncio.Transport):
             return
         self._closing = True
         self._conn_lost += 1
+        self.conn.client_closing = True
+        if getattr(self.conn, "slow_close", False):
+            # a real transport with unsent data in its write buffer reports connection_lost only once the buffer has drained (or the
+            # peer went away): the harness decides when (complete_close)
+            self._lost_pending = True
+            return
         self._loop.call_soon(self._call_connection_lost, None)
+
+    def complete_close(self):
+        if getattr(self, "_lost_pending", False):
+            self._lost_pending = False
+            self._loop.call_soon(self._call_connection_lost, None)
+            return True
+        return False
 
     def abort(self):
         self._force_close(None)
 
     def _force_close(self, exc):
+        if getattr(self, "_lost_pending", False):
+            self._lost_pending = False
+            self._loop.call_soon(self._call_connection_lost, exc)
+            return
         if self._conn_lost:
             return
         if not self._closing:
@@ -358,6 +375,8 @@ class Conn:
         self.transport: MemTransport | None = None
         self.rx = []  # list of bytes, one entry per client transport call
         self.client_open = True  # controller has not closed its end
+        self.client_closing = False  # controller called close(); completion may be pending (slow_close)
+        self.slow_close = False
         self.client_sent_eof = False
         self.peer_open = True  # accessory has not closed its end
         self.handler = None  # optional callable(conn, data) invoked on every client write
@@ -367,7 +386,7 @@ class Conn:
     @property
     def open(self):
         """Neither side has closed: this is what counts as an open (leaked) connection."""
-        return self.client_open and self.peer_open
+        return self.client_open and self.peer_open and not self.client_closing
 
     def client_wrote(self, data):
         self.rx.append(data)
